@@ -194,3 +194,21 @@ Example ex_reserved : reserved n_shout = true /\ reserved nm_x = false /\ reserv
 Proof. vm_compute. repeat split. Qed.
 Example ex_category : category BreakOutsideLoop = [85; 110; 114; 101; 97; 99; 104; 97; 98; 108; 101; 32; 99; 111; 100; 101].
 Proof. vm_compute. reflexivity. Qed.
+
+(* ================================================================== round 3: end-to-end composition
+   theories/Pipeline.v assembles lexer -> parser -> named tree -> static rules -> evaluator from SOURCE
+   BYTES (tied to the code by lib/props/pipeline.py on source text).  Statements as in
+   Properties/PIPELINE.v; restated by type so that this property's audit covers them. *)
+Require NS.Properties.PIPELINE.
+
+(* accepted iff no lexical diagnostic, no syntax diagnostic and no rule violation *)
+Theorem C09_accepted_iff :
+  ltac:(let t := type of NS.Properties.PIPELINE.PIPELINE_accepted_iff in exact t).
+Proof. exact NS.Properties.PIPELINE.PIPELINE_accepted_iff. Qed.
+Print Assumptions C09_accepted_iff.
+
+(* what ran was accepted *)
+Theorem C09_ran_was_accepted :
+  ltac:(let t := type of NS.Properties.PIPELINE.PIPELINE_ran_was_accepted in exact t).
+Proof. exact NS.Properties.PIPELINE.PIPELINE_ran_was_accepted. Qed.
+Print Assumptions C09_ran_was_accepted.
